@@ -322,6 +322,8 @@ def seqKeyRes (sv : SeqVars) : SeqRes :=
   | some (.tuple []) => .raise ⟨"IndexError".toList, []⟩
   | some (.list []) => .raise ⟨"IndexError".toList, []⟩
   | some (.str []) => .raise ⟨"IndexError".toList, []⟩
+  | some (.bytes (b :: _)) => .val (.int b)     -- `b'..'[0]` is the first byte, an int
+  | some (.bytes []) => .raise ⟨"IndexError".toList, []⟩
   | some (.dict _) => .missing          -- KeyError(0): "not in this frame"
   | _ => .raise ⟨"TypeError".toList, []⟩
 
